@@ -9,7 +9,7 @@
    by (walk, class)), C16_real_cache_transparent, C16_test_agrees_with_membership (T2-translated _field_is_instance),
    C16_user_global_never_shadows_builtin (T2-translated gate). *)
 From Verif Require Import Str Lookup LookupThm LookupSortThm LookupEnv LookupEnvThm Gen_Lookup LookupInst LookupInstThm LookupComposeThm
-  Gen_Pin_c16_loader Gen_Pin_c16_env Gen_Pin_c16_wiring.
+  Gen_Pin_c16_loader Gen_Pin_c16_env Gen_Pin_c16_wiring Gen_Pin_c16_surface.
 From Coq Require Import Permutation.
 Import ListNotations.
 Open Scope N_scope.
@@ -27,6 +27,22 @@ Proof. reflexivity. Qed.
    to get_template), _create_all_dsdl_tests; tied dynamically by the end-to-end stratum of the check (real generate_all) *)
 Example C16_wiring_shape_pinned : pin_c16_wiring_ok = true.
 Proof. reflexivity. Qed.
+(* the class surface of CodeGenEnvironment(+Builder), DSDLTemplateLoader, BaseLoader/FileSystemLoader/PackageLoader, CodeGenerator,
+   DSDLCodeGenerator: bases, keywords, decorators, ordered member names (no name defined twice), no module-level statement mentioning
+   the class, and EVERY statement of these classes that mentions .globals/.filters/.tests (any store form) or a dynamic-access name *)
+Example C16_class_surface_pinned : pin_c16_surface_ok = true.
+Proof. reflexivity. Qed.
+
+(* FIX-STATE FACTS ARE OBLIGATIONS.  The loader pin only accepts the post-fix shapes; the facts regenerated from it must be true:
+   only top-level templates are indexed (af716bd), the walk stops at pydsdl.Any (52035ba), additional globals are rejected if
+   already defined (6db3613).  Reverting one of these fixes makes this Example (and the pin) fail. *)
+Example C16_fix_state :
+  g_index_top_level_only = true /\ g_chain_ends_at_any = true /\ g_gate_checks_existing = true.
+Proof. repeat split; reflexivity. Qed.
+
+(* SCOPE OF ALL LOOKUP THEOREMS BELOW: the template directories do not change during the life of a loader (the code re-lists them on
+   every call while the memo persists; a file deleted after a hit is still returned from the memo) -- "every sequence" means every
+   sequence of lookups against FROZEN listings. *)
 
 (* ---------------------------------------------------------------------------------------------------------------
    A. Resolution.  EVERY class graph with single inheritance and a well-founded rank (no size bound), every pair of
@@ -73,28 +89,12 @@ Theorem C16_class_names_indexed : class_names_index_ok = true.
 Proof. exact class_names_index_true. Qed.
 Print Assumptions C16_class_names_indexed.
 
-(* (A5''') the chain ENDS AT pydsdl.Any (property text).  The code walks on to the bases of Any (abc.ABC) unless the walk stops at Any
-   -- a fact regenerated from /repo (g_chain_ends_at_any; design_notes/C16_chain_ends_at_any_fix.patch).  As long as it does not,
-   a user ABC.j2 is chosen and rendered for every type (finding F-LOOKUP-CHAIN-PAST-ANY): *)
-Theorem C16_chain_past_any_refuted : g_chain_ends_at_any = false ->
-  chain_end_ok = false /\
-  exists abc, p_name abc = [65; 66; 67] /\
-    p_rendered_seq false FIND_FIRST (Some [[p_exact_name abc]]) None [g_cls_StructureType] = [Rendered (OUserDir 0) (p_exact_name abc)] /\
-    p_spec_rendered FIND_FIRST (Some [[p_exact_name abc]]) None g_cls_StructureType = NoTemplate /\
-    isinst p_bases p_fuel abc g_cls_Any = false.
-Proof. exact chain_past_any_refuted. Qed.
-Print Assumptions C16_chain_past_any_refuted.
-
-(* ... and once it does, the chain of every class below Any ends at Any (so all theorems above speak about chains ending at Any) *)
-Theorem C16_chain_ends_at_any : g_chain_ends_at_any = true ->
+(* (A5c) the chain ENDS AT pydsdl.Any (property text; since fix 52035ba -- C16_fix_state): the chain of every class below Any ends at
+   Any, hence the chain the code walks is the chain of the property *)
+Theorem C16_chain_ends_at_any :
   chain_end_ok = true /\
-  (forall pol dirs pkg c, p_spec_rendered pol dirs pkg c = p_spec_rendered_code pol dirs pkg c) /\
-  (forall pol dirs pkg c, In c p_ids -> p_flatb pol dirs pkg = true -> p_shadow_freeb pol dirs pkg c = true ->
-     p_rendered_seq false pol dirs pkg [c] = [p_spec_rendered pol dirs pkg c]).
-Proof.
-  intros H. split; [exact (chain_ends_at_any_fixed H)|]. split; [exact (p_spec_rendered_agree H)|].
-  intros pol dirs pkg c. exact (p_rendered_property pol dirs pkg c H).
-Qed.
+  (forall pol dirs pkg c, p_spec_rendered pol dirs pkg c = p_spec_rendered_code pol dirs pkg c).
+Proof. exact (conj (chain_ends_at_any_fixed fact_chain_ends_at_any) (p_spec_rendered_agree fact_chain_ends_at_any)). Qed.
 Print Assumptions C16_chain_ends_at_any.
 
 (* (A6) directory enumeration order.  list_templates of the bundled loaders is modelled (sorted, de-duplicated): the listing handed
@@ -134,27 +134,37 @@ Print Assumptions C16_builtin_is_fallback.
 (* (A9) THE COMPOSITION: which FILE is rendered.  _generate_type hands type_to_template(type(T)).name to get_source.
    Property's reading: the most specific class k of T's chain for which a file named exactly <k><suffix> exists in ANY root of the
    loader chain (user search paths in order, then the package); rendered = that file in the FIRST root that has it
-   (p_spec_rendered over the chain that ends at Any; p_spec_rendered_code over the chain the code walks -- the two are equal once
-   the walk stops at Any, C16_chain_ends_at_any below).  True of the code when (1) no indexed template lives in a sub-directory and (2) no built-in template of a
-   nearer class is passed over for a user template of a more general class: *)
+   (p_spec_rendered, over the chain that ends at Any).  True of the code, for EVERY sequence of lookups (frozen directories), when no
+   built-in template of a nearer class is passed over for a user template of a more general class (sub-directory templates are no
+   longer indexed, the walk stops at Any): *)
 Theorem C16_rendered_file_partial :
-  forall pol dirs pkg c, In c p_ids ->
-    p_flatb pol dirs pkg = true -> p_shadow_freeb pol dirs pkg c = true ->
-    p_rendered_seq false pol dirs pkg [c] = [p_spec_rendered_code pol dirs pkg c].
-Proof. exact p_rendered_partial. Qed.
+  forall pol dirs pkg cs, (forall c, In c cs -> In c p_ids /\ p_shadow_freeb pol dirs pkg c = true) ->
+    p_rendered_seq false pol dirs pkg cs = map (p_spec_rendered pol dirs pkg) cs.
+Proof. exact p_rendered_seq_all. Qed.
 Print Assumptions C16_rendered_file_partial.
 
-(* (1) since fix af716bd only top-level templates are indexed (regenerated fact g_index_top_level_only): condition (1) of the partial
-   theorem holds for EVERY input (p_flatb = true by definition) and the witness renders what the property designates *)
-Theorem C16_rendered_file_subdir_fixed : g_index_top_level_only = true ->
+(* VACUITY UNDER FIND_FIRST -- the only policy DSDLCodeGenerator (nnvg) uses: once a templates directory is given the package loader
+   is not created, so built-in templates are UNREACHABLE: sentence 1 of the property ("user templates take precedence over built-in
+   templates of the same name") has no instance, the no-shadow premise above is trivially true, and "nearest class for which a template
+   exists" means "in the user directories".  E.g. `--templates` with only StructureType.j2 gives "No template found" for a delimited
+   type although a built-in DelimitedType.j2 exists.  User-vs-built-in precedence is a statement about FIND_ALL (SupportGenerator /
+   direct API use) only. *)
+Theorem C16_find_first_builtins_unreachable :
+  forall (rs : list (list path)) pkg,
+    (forall name, p_get_source FIND_FIRST (Some rs) pkg name <> Some OPkg) /\
+    (forall c, p_shadow_freeb FIND_FIRST (Some rs) pkg c = true) /\
+    (forall q cs, p_lookup_seq q FIND_FIRST (Some rs) pkg cs = p_lookup_seq q FIND_FIRST (Some rs) None cs).
+Proof. exact find_first_builtins_unreachable. Qed.
+Print Assumptions C16_find_first_builtins_unreachable.
+
+(* (1) since fix af716bd only top-level templates are indexed (C16_fix_state): the old witness of F-LOOKUP-SUBDIR-NAME renders what the
+   property designates *)
+Theorem C16_rendered_file_subdir_fixed :
   (forall pol dirs pkg, p_flatb pol dirs pkg = true) /\
   p_lookup_seq false FIND_FIRST (Some [[f_sub_struct; f_comp]]) (Some [f_struct]) [g_cls_StructureType] = [Some f_comp] /\
   p_rendered_seq false FIND_FIRST (Some [[f_sub_struct; f_comp]]) (Some [f_struct]) [g_cls_StructureType] = [Rendered (OUserDir 0) f_comp] /\
   p_spec_rendered FIND_FIRST (Some [[f_sub_struct; f_comp]]) (Some [f_struct]) g_cls_StructureType = Rendered (OUserDir 0) f_comp.
-Proof.
-  intros H. split; [|exact (subdir_name_fixed H)].
-  intros pol dirs pkg. unfold p_flatb. destruct (mk_loaders pol dirs pkg). rewrite H. reflexivity.
-Qed.
+Proof. exact (conj p_flatb_true (subdir_name_fixed fact_index_top_level_only)). Qed.
 Print Assumptions C16_rendered_file_subdir_fixed.
 
 (* (2) refuted (finding F-LOOKUP-USER-GENERAL-FIRST; reading-dependent, DESIGN section 5 C16): under FIND_ALL a user CompositeType.j2
